@@ -73,22 +73,33 @@ func (s _storage) bridge(cmd *cobra.Command) {
 	}
 }
 
-func (s _storage) hasFlag(cmd *cobra.Command, name string) bool {
-	if flag := cmd.LocalFlags().Lookup(name); flag == nil && cmd.HasParent() {
-		return s.hasFlag(cmd.Parent(), name)
-	} else {
-		entry := s.get(cmd)
-		entry.flagMutex.RLock()
-		defer entry.flagMutex.RUnlock()
-		_, ok := entry.flag[name]
-		return ok
+// flagOwner returns the command whose definition of the flag is the one cmd sees: cmd itself or the nearest
+// ancestor defining it as persistent flag (a local flag of an ancestor is not inherited).
+func flagOwner(cmd *cobra.Command, name string) *cobra.Command {
+	if cmd.LocalFlags().Lookup(name) != nil {
+		return cmd
 	}
+	for parent := cmd.Parent(); parent != nil; parent = parent.Parent() {
+		if parent.PersistentFlags().Lookup(name) != nil {
+			return parent
+		}
+	}
+	return cmd.Root()
+}
+
+func (s _storage) hasFlag(cmd *cobra.Command, name string) bool {
+	entry := s.get(flagOwner(cmd, name))
+	entry.flagMutex.RLock()
+	defer entry.flagMutex.RUnlock()
+	_, ok := entry.flag[name]
+	return ok
 }
 
 func (s _storage) getFlag(cmd *cobra.Command, name string) Action {
-	if flag := cmd.LocalFlags().Lookup(name); flag == nil && cmd.HasParent() {
-		return s.getFlag(cmd.Parent(), name)
+	if owner := flagOwner(cmd, name); owner != cmd {
+		return s.getFlag(owner, name)
 	} else {
+		flag := cmd.LocalFlags().Lookup(name)
 		entry := s.get(cmd)
 		entry.flagMutex.RLock()
 		defer entry.flagMutex.RUnlock()
